@@ -1,3 +1,142 @@
-import GeomV.C19.Spec
+import GeomV.C19.AStar
+/-!
+# C19 — property theorems
+-/
+set_option linter.unusedVariables false
+set_option linter.unusedSimpArgs false
+set_option linter.unusedSectionVars false
 namespace GeomV.C19
+
+variable {α : Type} [Field α] [LinearOrder α] [IsStrictOrderedRing α]
+
+/-- **The oracle is the minimum.**  For non-negative weights and nodes `0 … n-1`, the Bellman–Ford
+table after `n - 1` rounds holds, for every node `t`, exactly the minimum of the costs of ALL walks
+(chains) from `s` to `t`; an empty entry means that `t` is not connected to `s`.  This is what the
+judge compares the implementation's route cost with ("cost … minimal over all such chains",
+"when the two nodes are not connected"). -/
+theorem bellmanFord_correct (G : Graph α) (n s : Nat) (hw : NonnegW G) (hr : InRange G n) (hs : s < n) (t : Nat) :
+    (∀ c, look (bellmanFord G n s) t = some c ↔ IsMinCost G s t c) ∧
+    (look (bellmanFord G n s) t = none ↔ ¬ Reachable G s t) := by
+  have hle := bellmanFord_le G n s hw hr hs
+  constructor
+  · intro c
+    constructor
+    · intro h
+      refine ⟨bfIter_sound G n s _ t c h, ?_⟩
+      intro p hp he
+      obtain ⟨y, hy, hyc⟩ := hle p hp
+      rw [he, h] at hy
+      cases hy; exact hyc
+    · rintro ⟨⟨p, hp, he, hc⟩, hmin⟩
+      obtain ⟨y, hy, hyc⟩ := hle p hp
+      rw [he] at hy
+      obtain ⟨q, hq, hqe, hqc⟩ := bfIter_sound G n s _ t y hy
+      have := hmin q hq hqe
+      have : y = c := le_antisymm (by rw [← hc]; exact hyc) (by rw [← hqc]; exact this)
+      rw [hy, this]
+  · constructor
+    · rintro h ⟨p, hp, he⟩
+      obtain ⟨y, hy, _⟩ := hle p hp
+      rw [he, h] at hy
+      cases hy
+    · intro h
+      cases hl : look (bellmanFord G n s) t with
+      | none => rfl
+      | some c =>
+        obtain ⟨q, hq, hqe, _⟩ := bfIter_sound G n s _ t c hl
+        exact absurd ⟨q, hq, hqe⟩ h
+
+
+/-! ### the heap contract is satisfiable: the instance the driver runs -/
+
+theorem minEntry_spec (e : Entry α) (es : List (Entry α)) :
+    minEntry e es ∈ e :: es ∧ ∀ x ∈ e :: es, (minEntry e es).f ≤ x.f := by
+  induction es generalizing e with
+  | nil => simp [minEntry]
+  | cons x es ih =>
+    have hfold : minEntry e (x :: es) = minEntry (if x.f < e.f then x else e) es := by
+      simp [minEntry]
+    rw [hfold]
+    obtain ⟨h1, h2⟩ := ih (if x.f < e.f then x else e)
+    by_cases hx : x.f < e.f
+    · simp only [if_pos hx] at h1 h2 ⊢
+      refine ⟨?_, ?_⟩
+      · rcases List.mem_cons.1 h1 with h | h
+        · rw [h]; simp
+        · simp [h]
+      · intro y hy
+        rcases List.mem_cons.1 hy with rfl | hy
+        · exact le_trans (h2 x (by simp)) (le_of_lt hx)
+        · exact h2 y hy
+    · simp only [if_neg hx] at h1 h2 ⊢
+      refine ⟨?_, ?_⟩
+      · rcases List.mem_cons.1 h1 with h | h
+        · rw [h]; simp
+        · simp [h]
+      · intro y hy
+        rcases List.mem_cons.1 hy with rfl | hy
+        · exact h2 y (by simp)
+        · rcases List.mem_cons.1 hy with rfl | hy
+          · exact le_trans (h2 e (by simp)) (not_lt.1 hx)
+          · exact h2 y (List.mem_cons_of_mem _ hy)
+
+/-- `pickMin` (first entry of minimal fscore — the instance the driver runs) satisfies the heap
+contract `PickSpec`; non-vacuity of the hypothesis of `astar_optimal`. -/
+theorem pickMin_spec : PickSpec (pickMin : Pick α) := by
+  refine ⟨?_, ?_, ?_, ?_⟩
+  · intro l; cases l <;> simp [pickMin]
+  · intro l m r h
+    cases l with
+    | nil => simp [pickMin] at h
+    | cons e es =>
+      simp only [pickMin, Option.some.injEq, Prod.mk.injEq] at h
+      rw [← h.1]; exact (minEntry_spec e es).1
+  · intro l m r h
+    cases l with
+    | nil => simp [pickMin] at h
+    | cons e es =>
+      simp only [pickMin, Option.some.injEq, Prod.mk.injEq] at h
+      rw [← h.1]; exact (minEntry_spec e es).2
+  · intro l m r h x
+    cases l with
+    | nil => simp [pickMin] at h
+    | cons e es =>
+      simp only [pickMin, Option.some.injEq, Prod.mk.injEq] at h
+      rw [← h.2, ← h.1]
+      simp [List.mem_filter]
+
+/-- **A\* is optimal** (gonum's loop as modelled: closed set without re-opening, heap abstracted to
+`PickSpec`).  For non-negative weights, a CONSISTENT heuristic and nodes `0 … n-1`, with fuel `≥ n+1`
+the loop terminates without a fault (no `fuel`, `badWeight`, `negWeight`), and either
+* `dist t = some c` where `c` is the minimum cost over all walks from `s` to `t`, and `Shortest.To`
+  returns a walk from `s` to `t` of exactly that cost (no `noPrev`/`negCycle` fault), or
+* `dist t = none`, `t` is not reachable from `s`, and `Shortest.To` returns the empty path.
+Covers "whose cost … is minimal over all such chains" and "when the two nodes are not connected the
+route is empty" at the level of node paths. -/
+theorem astar_optimal (A : Adapter α) (G : Graph α) (pick : Pick α) (s t n fuel : Nat)
+    (hP : PickSpec pick) (hW : WeightsOk A G) (hC : Consistent G A.h t) (hr : InRange G n) (hs : s < n)
+    (hf : n + 1 ≤ fuel) :
+    ∃ st, astar A pick fuel s t = .ok st ∧
+      ((∃ c p, st.dist t = some c ∧ IsMinCost G s t c ∧ shortestTo st s t (n + 2) = .ok (s :: p) ∧
+          isWalk G s p ∧ endOf s p = t ∧ cost G s p = c) ∨
+       (st.dist t = none ∧ ¬ Reachable G s t ∧ shortestTo st s t (n + 2) = .ok [])) := by
+  obtain ⟨st, h1, h2, h3⟩ := astarLoop_post hW hC hP hr fuel (astarInit A s t) (init_inv hs)
+    (by simp [astarInit]; omega)
+  refine ⟨st, h1, ?_⟩
+  rcases h2 with ⟨c, p, hd, hmin, htree⟩ | ⟨hd, hnr⟩
+  · left
+    obtain ⟨i1, i2, i3⟩ := htree.walk
+    refine ⟨c, p, hd, hmin, ?_, i1, i2, i3⟩
+    have hl := htree.len
+    simp [shortestTo, hd, htree.pathTo (n + 2) (by omega)]
+  · right
+    exact ⟨hd, hnr, by simp [shortestTo, hd]⟩
+
+/-- Dijkstra = the zero heuristic (gonum's `NullHeuristic`) is consistent for non-negative weights:
+the hypothesis `Consistent` of `astar_optimal` is satisfiable on every such graph. -/
+theorem consistent_zero (G : Graph α) (hw : NonnegW G) (t : Nat) : Consistent G (fun _ _ => (0 : α)) t := by
+  intro x y hxy
+  have := hw x y hxy
+  simp; exact this
+
 end GeomV.C19
